@@ -568,6 +568,13 @@ Theorem C04_kernel_rr_structure : forall p r0 Z' y ridge atol maxiter beta u, rr
 Proof. exact kernel_rr_structure. Qed.
 Print Assumptions C04_kernel_rr_structure.
 
+(** the ridge parameter of the penalised criterion is the source's quotient varE / varU of the variance components, positive
+    whenever they are (they are exponentials of the optimiser's result): the hypothesis [0 < ridge] of C04_rr_never_worse_than_zero
+    and C04_rr_normal_equations_partial *)
+Theorem C04_kernel_ridge : forall varE varU, k_ridge varE varU = varE / varU /\ (0 < varE -> 0 < varU -> 0 < k_ridge varE varU).
+Proof. intros. split; [apply k_ridge_model | apply kernel_ridge_positive]. Qed.
+Print Assumptions C04_kernel_ridge.
+
 (** non-vacuity of the hypotheses of the kernel theorems *)
 Example C04_kernel_hyps_satisfiable :
   let g := build CAD [[1; 2]; [3; 4]] None [[1; 0]; [-1; 2]] (Some [[0; 1]; [1; 0]]) 2 in
@@ -576,10 +583,10 @@ Example C04_kernel_hyps_satisfiable :
   k_AD_gegv_het_obj 2 4 = true /\ k_AD_gegv_het_obj 4 4 = false /\
   (exists vA l, var_A g gt = Some vA /\ bulmer g gt None = Some l /\ (1 < length vA)%nat /\ (1 < length (var_a g gt None))%nat) /\
   (exists beta u, rr_fit1 2 ([0; 1] :: [[1; 1]; [2; 1]; [1; 1]])%Z [1; 2; 4; 2] (1 # 2) (1 # 100) 50 = Some (beta, u)) /\
-  (3 <= 5)%nat.
+  (3 <= 5)%nat /\ 0 < (1 # 3) /\ 0 < k_ridge (1 # 3) (2 # 5).
 Proof.
   cbv zeta. split; [lia|]. split; [lia|]. split; [lia|]. split; [reflexivity|].
   split; [cbn; repeat constructor|]. split; [reflexivity|]. split; [reflexivity|].
   split; [eexists; eexists; split; [vm_compute; reflexivity|]; split; [vm_compute; reflexivity|]; cbn; lia|].
-  split; [eexists; eexists; vm_compute; reflexivity | lia].
+  split; [eexists; eexists; vm_compute; reflexivity |]. split; [lia|]. split; reflexivity.
 Qed.
